@@ -11,6 +11,12 @@ receiver  asyncssh advertises a generated window / packet size; the peer
           application reads or has reading paused.  Inside: delivered
           complete and in order; beyond: protocol error, nothing of the
           excess delivered.
+streams   the receiving application uses the stream API (SSHReader read /
+          readexactly / readline / read-to-EOF) with reads smaller and larger
+          than the advertised window, starting before or after the data has
+          arrived; the peer sends whenever (and only as far as) window is
+          granted.  Every byte is delivered in order and the peer is never
+          left with data to send and no window while a read is pending.
 """
 
 from typing import Any, Dict, List, Optional
@@ -410,6 +416,234 @@ def receiver_strategy(tier: str):
         'ops': st.lists(op, min_size=1, max_size=12)})
 
 
+# -------------------------------------------------------------- streams ---
+
+def run_streams(case) -> CaseResult:
+    """asyncssh application reading through SSHReader; the peer (refpeer)
+    sends `total` bytes then EOF, as fast as the window asyncssh grants
+    allows"""
+
+    import asyncio
+    role = case['role']
+    W, P = case['window'], case['maxpkt']
+    total = case['total']
+    data = bytes(((i * 7 + (i >> 8)) & 0x7f) | 0x20 if i % 61 else 0x0a
+                 for i in range(total))
+    labels = {'role:' + role, 'window:%d' % W}
+    results: List[Any] = []
+    readers: List[Any] = []
+
+    async def program(reader):
+        for op in case['ops']:
+            if op[0] == 'wait':
+                await asyncio.sleep(op[1])
+                continue
+            try:
+                if op[0] == 'exact':
+                    out = await reader.readexactly(op[1])
+                elif op[0] == 'read':
+                    out = await reader.read(op[1])
+                elif op[0] == 'line':
+                    out = await reader.readline()
+                else:
+                    out = await reader.read()
+            except asyncio.IncompleteReadError as exc:
+                results.append((op, 'incomplete', exc.partial))
+                continue
+            results.append((op, 'ok', out))
+        results.append((['rest'], 'ok', await reader.read()))
+
+    if role == 'server':
+        ref = RefPeer('client')
+        conn = RefConn(ref)
+
+        async def handler(process):
+            readers.append(process.stdin)
+            await program(process.stdin)
+            process.exit(0)
+
+        link = RefLink(ref, {'process_factory': handler, 'encoding': None,
+                             'window': W, 'max_pktsize': P})
+        link.start()
+        link.pump()
+        conn.request_service()
+        link.pump()
+        conn.auth_password('user', 'pw')
+        link.pump()
+        rch = conn.open_channel()
+        link.pump()
+        if not rch.confirmed:
+            raise Violation('setup', 'session not confirmed', 'setup')
+        conn.chan_request(rch, b'exec', True, string(b'cmd'))
+        link.pump()
+        done = lambda: rch.closed or rch.eof      # noqa: E731
+    else:
+        hk = _HK.setdefault('ed', RefKey('ed25519'))
+        ref = RefPeer('server', host_key=hk)
+        conn = RefConn(ref)
+        link = RefLink(ref, {})
+        link.start()
+        link.pump_until(link.ready.done)
+        if not link.ready.done() or link.ready.exception():
+            raise Violation('setup', 'client did not authenticate', 'setup')
+
+        async def client():
+            _, rd, _ = await link.conn.open_session(
+                'cmd', encoding=None, window=W, max_pktsize=P)
+            readers.append(rd)
+            await program(rd)
+
+        task = link.h.spawn(client())
+        link.pump()
+        if not conn.channels:
+            raise Violation('setup', 'no session opened', 'setup')
+        rch = conn.channels[0]
+        done = task.done
+
+    h = link.h
+
+    try:
+        if rch.send_window != W:
+            raise Violation('advertised', 'asyncssh advertised window %d, '
+                            'configured %d' % (rch.send_window, W),
+                            'advertised')
+
+        sent = 0
+        eof_sent = False
+        if case['ops'] and case['ops'][0][0] == 'wait':
+            labels.add('reader-starts-late')
+
+        for _ in range(20000):
+            if sent < total:
+                k = conn.send_stream(rch, data[sent:])
+                sent += k
+            elif not eof_sent:
+                conn.eof(rch)
+                eof_sent = True
+
+            before = (sent, len(results), rch.send_window)
+            link.pump()
+
+            if link.rp.error:
+                raise Violation('decode', str(link.rp.error), 'decode')
+
+            if done() and eof_sent:
+                break
+
+            if (sent, len(results), rch.send_window) == before and \
+                    (rch.send_window == 0 or eof_sent):
+                # nothing moved at quiescence: virtual time may be what the
+                # program is waiting for
+                if h.loop._scheduled:     # pylint: disable=protected-access
+                    h.advance(1.0)
+                    continue
+
+                if sent < total:
+                    raise Violation(
+                        'deadlock', 'a read is pending, the peer has %d of %d '
+                        'bytes left to send and asyncssh grants no window '
+                        '(advertised %d, max packet %d); results so far %r' %
+                        (total - sent, total, W, P,
+                         [(r[0], r[1], len(r[2])) for r in results][-4:]),
+                        'streams-deadlock:' + (case['ops'][len(results)][0]
+                                               if len(results) <
+                                               len(case['ops']) else 'rest'))
+
+                raise Violation('reader-hung', 'everything and EOF were '
+                                'sent, the reading program is still pending '
+                                'after %d results' % len(results),
+                                'streams-hung')
+        else:
+            raise Violation('deadlock', 'no end after 20000 rounds',
+                            'streams-livelock')
+
+        h.pump()
+
+        if h.loop_errors:
+            raise Violation('loop-error', repr(h.loop_errors[0])[:300],
+                            'loop-error')
+
+        # reference: the results, in order, partition the stream
+        pos = 0
+
+        for op, how, out in results:
+            want_hi = None
+
+            if op[0] == 'exact':
+                n = op[1]
+                if how == 'ok' and len(out) != n:
+                    raise Violation('stream-semantics', 'readexactly(%d) '
+                                    'returned %d bytes' % (n, len(out)),
+                                    'streams-exact-len')
+                if how == 'incomplete' and pos + len(out) != total:
+                    raise Violation('stream-semantics', 'IncompleteReadError '
+                                    'with %d bytes at offset %d of %d' %
+                                    (len(out), pos, total),
+                                    'streams-incomplete-early')
+                if n > W:
+                    labels.add('exact>window')
+            elif op[0] == 'read':
+                want_hi = op[1]
+                if len(out) > want_hi or (not out and pos < total):
+                    raise Violation('stream-semantics', 'read(%d) returned '
+                                    '%d bytes at offset %d of %d' %
+                                    (op[1], len(out), pos, total),
+                                    'streams-read-len')
+            elif op[0] == 'line':
+                nl = data.find(b'\n', pos)
+                # (a line longer than the window may come back in pieces:
+                # documented since 2.1.0)
+                if out and out.endswith(b'\n') and nl >= 0 and \
+                        pos + len(out) != nl + 1:
+                    raise Violation('stream-semantics', 'readline() ended at '
+                                    'offset %d, first newline at %d' %
+                                    (pos + len(out) - 1, nl),
+                                    'streams-line-end')
+
+            if data[pos:pos + len(out)] != out:
+                raise Violation('data', '%r returned bytes that are not the '
+                                'next %d bytes of the stream (offset %d)' %
+                                (op, len(out), pos), 'streams-data')
+            pos += len(out)
+
+        if pos != total:
+            raise Violation('data', 'program read to EOF and got %d of %d '
+                            'bytes' % (pos, total), 'streams-short')
+
+        if total > W:
+            labels.add('stream>window')
+
+        nontrivial = 'stream>window' in labels
+        return CaseResult(sorted(labels), nontrivial)
+    finally:
+        link.close()
+
+
+def streams_strategy(tier: str):
+    @st.composite
+    def build(draw):
+        W = draw(pick([1, 7, 100, 1024, 4096, 65536]))
+        P = draw(pick([1, 64, 1024, 32768]))
+        if W >= 4096 and P == 1:
+            P = 64
+        total = draw(pick([0, 1, W, W + 1, 2 * W, 3 * W + 5, 10 * W]))
+        total = min(total, 200000, 3000 * P)
+        size = pick(sorted({1, 2, max(W - 1, 1), W, W + 1, 2 * W, 3 * W,
+                            max(total // 2, 1), max(total, 1), total + 1}))
+        op = st.one_of(
+            st.tuples(st.just('exact'), size).map(list),
+            st.tuples(st.just('exact'), size).map(list),
+            st.tuples(st.just('read'), size).map(list),
+            st.just(['line']), st.just(['all']),
+            st.tuples(st.just('wait'), pick([1, 5])).map(list))
+        return {'role': draw(pick(['server', 'client'])), 'window': W,
+                'maxpkt': P, 'total': total,
+                'ops': ([['wait', 3]] if draw(st.booleans()) else []) +
+                draw(st.lists(op, min_size=0, max_size=6))}
+
+    return build()
+
+
 FAMILIES = [
     Family('sender', run_sender, strategy=sender_strategy,
            budget={'quick': 1500, 'thorough': 20000},
@@ -424,5 +658,11 @@ FAMILIES = [
                              'violation-while-paused',
                              'violation-while-reading', 'data-while-paused',
                              'pause']},
+           case_timeout=120, timeout_is_violation=True),
+    Family('streams', run_streams, strategy=streams_strategy,
+           budget={'quick': 1200, 'thorough': 16000},
+           required={'all': ['role:server', 'role:client', 'stream>window',
+                             'exact>window', 'window:1',
+                             'reader-starts-late']},
            case_timeout=120, timeout_is_violation=True),
 ]
